@@ -313,12 +313,14 @@ func c04BuiltinAtoms() []string {
 func c04BuiltinLayer(thorough bool) c04Layer {
 	names := c04Union(c04InterpTable("builtinFuncs"), c04VMBuiltins())
 	atoms := c04BuiltinAtoms()
+	a3 := append(c04AllLits(), "f1")
 	a4 := c04Lits("INT", "STR", "NULL", "ARR", "OBJ", "FLOAT")
 	if thorough {
+		a3 = atoms
 		a4 = c04Lits("ZERO", "INT", "NEG", "BIG", "FLOAT", "STR", "BOOL", "NULL", "EARR", "ARR", "OBJ")
 	}
 	na := len(atoms)
-	c := []int{1, na, na * na, na * na * na, c04Pow(len(a4), 4)}
+	c := []int{1, na, na * na, c04Pow(len(a3), 3), c04Pow(len(a4), 4)}
 	per := 0
 	for _, x := range c {
 		per += x
@@ -332,6 +334,9 @@ func c04BuiltinLayer(thorough bool) c04Layer {
 			ar++
 		}
 		set := atoms
+		if ar == 3 {
+			set = a3
+		}
 		if ar == 4 {
 			set = a4
 		}
@@ -645,14 +650,6 @@ func c04MiscLayer() c04Layer {
 	add := func(group string, decls []string, body ...string) {
 		cs = append(cs, c04Case{Decls: decls, Body: body, Group: group, Async: strings.Contains(strings.Join(body, " "), "async")})
 	}
-	// self-referential structures
-	for _, use := range []string{"> o", "> toString(o)", "> o == o", "> [o]", "> keys(o)", "> length(o)", "> o.a.a.a.a", `> join([o], ",")`, "> sort([o, o])",
-		"$ y = match o {\n  {a} => a\n  _ => 0\n}\n> y", "> o :: 500", "> text(o)", "> html(o)", "> contains([o], o)", "> indexOf([o], o)", "for k, v in o {\n  $ o.b = v\n}\n> 1"} {
-		add("cyclic", nil, append([]string{"$ o = {a: 1}", "$ o.a = o"}, strings.Split(use, "\n")...)...)
-		add("cyclic", nil, append([]string{"$ o = {a: 1}", `$ p = set(o, "a", o)`}, strings.Split(use, "\n")...)...)
-		add("cyclic", nil, append([]string{"$ o = [1, 2]", "$ o[0] = o"}, strings.Split(use, "\n")...)...)
-		add("cyclic", nil, append([]string{"$ o = [1]", "$ o = append(o, o)", "$ o[0] = o"}, strings.Split(use, "\n")...)...)
-	}
 	// aliasing / mutation during iteration
 	add("mutation", nil, "$ a = [1, 2, 3]", "for v in a {", "  a = a + [v]", "}", "> length(a)")
 	add("mutation", nil, "$ a = [1, 2, 3]", "for i, v in a {", "  $ a[i] = a", "}", "> 1")
@@ -704,6 +701,24 @@ func c04MiscLayer() c04Layer {
 	return c04ListLayer("misc", cs)
 }
 
+// self-referential values: every consumer that walks a value must terminate
+func c04CyclicLayer() c04Layer {
+	var cs []c04Case
+	builders := [][]string{{"$ o = {a: 1}", "$ o.a = o"}, {"$ o = [1, 2]", "$ o[0] = o"}, {"$ o = {a: 1}", `$ p = set(o, "a", o)`}, {"$ o = [1]", "$ o = append(o, o)", "$ o[0] = o"}}
+	uses := []string{"> o", "> toString(o)", "> o == o", "> [o]", "> keys(o)", "> length(o)", "> o.a.a.a.a", `> join([o], ",")`, "> sort([o, o])",
+		"$ y = match o {\n  {a} => a\n  _ => 0\n}\n> y", "> o :: 500", "> text(o)", "> html(o)", "> contains([o], o)", "> indexOf([o], o)", "for k, v in o {\n  $ o.b = v\n}\n> 1",
+		"> flat([o])", "> reverse([o])", `> "" + toString(o)`, "> o[0][0][0]"}
+	for bi, b := range builders {
+		for _, u := range uses {
+			if bi >= 2 && !(u == "> o" || u == "> toString(o)") {
+				continue
+			}
+			cs = append(cs, c04Case{Body: append(append([]string{}, b...), strings.Split(u, "\n")...), Group: "cyclic"})
+		}
+	}
+	return c04ListLayer("cyclic", cs)
+}
+
 func c04AsyncLayer() c04Layer {
 	bodies := []string{"> 1", "> 1 / 0", "> zz", "> [1] == [1]", "$ o = {a: 1}\n  > o.a.b.c", "x = 2\n  > x", "$ x = 3\n  > x", "> await async {\n    > 1 / 0\n  }",
 		"$ i = 0\n  while i < 1000 {\n    i = i + 1\n  }\n  > i", "> f1(1)", "> fe(1)", "> input", "break", "> 1 :: 404", "? false :: 400 \"m\"\n  > 1", "> text(\"a\")"}
@@ -729,6 +744,8 @@ func c04RequestLayer(thorough bool) c04Layer {
 		{HasBody: true, Body: "\xef\xbb\xbf{\"a\":1}"}, {HasBody: true, Body: `{"a":"\ud800"}`}, {HasBody: true, Body: `{"a":1,"a":[2]}`}, {HasBody: true, Body: `{"a":9223372036854775808}`},
 		{HasBody: true, Body: `{"a":-0}`}, {HasBody: true, Body: `{"a":1e308}`}, {HasBody: true, Body: `{"":1}`}, {HasBody: true, Body: `{"a\u0000b":1,"a":"\u0000"}`}, {HasBody: true, Body: `{"a":"\xff"}`},
 		{HasBody: true, Body: `{"a":[]}`}, {HasBody: true, Body: `{"a":null}`}, {HasBody: true, Body: `{"a":{"b":null}}`}, {HasBody: true, Body: `a=1&b=2`}, {HasBody: true, Body: "--x\r\nContent-Disposition: form-data; name=\"a\"\r\n\r\n1\r\n--x--\r\n"},
+	}
+	big := []c04Req{
 		{BodyGen: "nest-arr:100"}, {BodyGen: "nest-arr:9990"}, {BodyGen: "nest-arr:10001"}, {BodyGen: "nest-obj:5000"}, {BodyGen: "nest-obj:10001"}, {BodyGen: "bigstr:1000000"},
 		{BodyGen: "bigstr:10485700"}, {BodyGen: "bigstr:11000000"}, {BodyGen: "manykeys:100000"}, {BodyGen: "digits:100000"}, {BodyGen: "spaces:11000000"}, {BodyGen: "arr:1000000"},
 	}
@@ -740,9 +757,24 @@ func c04RequestLayer(thorough bool) c04Layer {
 	if !thorough {
 		methods = []string{"POST", "DELETE", "GET"}
 	}
+	bigProgs := [][]string{{"> input"}, {"> length(input.a)"}, {"> input == null"}}
+	bigCTs := []string{"", "application/json", "text/plain"}
+	bigMethods := []string{"POST", "DELETE"}
 	nA := len(progs) * len(bodies) * len(cts) * len(methods)
 	nB := len(progs) * len(targets) * 2
-	return c04Layer{Name: "requests", N: nA + nB, At: func(i int) c04Case {
+	nC := len(bigProgs) * len(big) * len(bigCTs) * len(bigMethods)
+	return c04Layer{Name: "requests", N: nA + nB + nC, At: func(i int) c04Case {
+		if i >= nA+nB {
+			i -= nA + nB
+			p := bigProgs[i%len(bigProgs)]
+			i /= len(bigProgs)
+			r := big[i%len(big)]
+			i /= len(big)
+			r.CT = bigCTs[i%len(bigCTs)]
+			i /= len(bigCTs)
+			r.Method = bigMethods[i%len(bigMethods)]
+			return c04Case{Header: "@ " + r.Method + " /t", Body: p, Req: r, Group: "request-body"}
+		}
 		if i < nA {
 			p := progs[i%len(progs)]
 			i /= len(progs)
@@ -767,7 +799,18 @@ func c04RequestLayer(thorough bool) c04Layer {
 	}}
 }
 
+var c04BodyCache = map[string][]byte{}
+
 func c04GenBody(spec string) []byte {
+	if b, ok := c04BodyCache[spec]; ok {
+		return b
+	}
+	b := c04GenBodyMake(spec)
+	c04BodyCache[spec] = b
+	return b
+}
+
+func c04GenBodyMake(spec string) []byte {
 	kind, ns, _ := strings.Cut(spec, ":")
 	n, _ := strconv.Atoi(ns)
 	switch kind {
@@ -901,11 +944,18 @@ func c04GenSrc(spec string) []string {
 }
 
 // programs whose evaluation may not end or may not fit in memory
-func c04LoopLayer() c04Layer {
+func c04LoopLayer(thorough bool) c04Layer {
 	var cs []c04Case
+	seen := map[string]int{}
 	add := func(group string, nonterm bool, decls []string, body ...string) {
-		cs = append(cs, c04Case{Decls: decls, Body: body, Group: group, NonTerm: nonterm, NoVMRaw: true,
-			Async: strings.Contains(strings.Join(body, " "), "async")})
+		c := c04Case{Decls: decls, Body: body, Group: group, NonTerm: nonterm, NoVMRaw: true,
+			Async: strings.Contains(strings.Join(body, " "), "async")}
+		// every unbounded loop hangs the compiled mode for one reason; the quick tier pays the watchdog once per group
+		if !thorough && nonterm && seen[group] >= 2 {
+			c.SkipVM = true
+		}
+		seen[group]++
+		cs = append(cs, c)
 	}
 	// small bounds first: the same constructs terminate quickly when bounded
 	add("bounded-loop", false, nil, "$ i = 0", "while i < 1000 {", "  i = i + 1", "}", "> i")
@@ -913,49 +963,50 @@ func c04LoopLayer() c04Layer {
 	add("bounded-loop", false, nil, "$ a = [1]", "$ i = 0", "while i < 10 {", "  a = a + a", "  i = i + 1", "}", "> length(a)")
 	add("bounded-loop", false, []string{"! fib(n: int) {", "  if n < 2 {", "    > n", "  }", "  > fib(n - 1) + fib(n - 2)", "}"}, "> fib(10)")
 	// non-terminating loops
-	add("while-true", true, nil, "while true {", "}", "> 1")
-	add("while-true", true, nil, "$ i = 0", "while true {", "  i = i + 1", "}", "> i")
-	add("while-true", true, nil, "$ i = 0", "while i >= 0 {", "  i = i + 1", "  continue", "}", "> i")
-	add("while-true", true, nil, "while true {", "  while true {", "    break", "  }", "}", "> 1")
-	add("while-true", true, nil, "for v in [1, 2] {", "  while true {", "  }", "}", "> 1")
-	add("while-true", true, nil, "if true {", "  while 1 == 1 {", "    $ y = 1", "  }", "}", "> 1")
+	add("unbounded-work", true, nil, "while true {", "}", "> 1")
+	add("unbounded-work", true, nil, "$ i = 0", "while true {", "  i = i + 1", "}", "> i")
+	add("unbounded-work", true, nil, "$ i = 0", "while i >= 0 {", "  i = i + 1", "  continue", "}", "> i")
+	add("unbounded-work", true, nil, "while true {", "  while true {", "    break", "  }", "}", "> 1")
+	add("unbounded-work", true, nil, "for v in [1, 2] {", "  while true {", "  }", "}", "> 1")
+	add("unbounded-work", true, nil, "if true {", "  while 1 == 1 {", "    $ y = 1", "  }", "}", "> 1")
 	// growth inside a non-terminating loop
-	add("while-true-doubling", true, nil, "$ s = \"aaaaaaaa\"", "while true {", "  s = s + s", "}", "> 1")
-	add("while-true-doubling", true, nil, "$ a = [1, 2, 3, 4]", "while true {", "  a = a + a", "}", "> 1")
-	add("while-true-doubling", true, nil, "$ o = {a: 1}", "while true {", "  o = {a: o, b: o}", "}", "> 1")
-	add("while-true-growing", true, nil, "$ a = []", "while true {", "  a = a + [a]", "}", "> 1")
-	add("while-true-growing", true, nil, "$ a = []", "while true {", "  a = append(a, 1)", "}", "> 1")
+	add("unbounded-allocation", true, nil, "$ s = \"aaaaaaaa\"", "while true {", "  s = s + s", "}", "> 1")
+	add("unbounded-allocation", true, nil, "$ a = [1, 2, 3, 4]", "while true {", "  a = a + a", "}", "> 1")
+	add("unbounded-allocation", true, nil, "$ o = {a: 1}", "while true {", "  o = {a: o, b: o}", "}", "> 1")
+	add("unbounded-work", true, nil, "$ a = []", "while true {", "  a = a + [a]", "}", "> 1")
+	add("unbounded-work", true, nil, "$ a = []", "while true {", "  a = append(a, 1)", "}", "> 1")
 	// loops that terminate only after an astronomically long time although each loop is within the iteration bound
-	add("nested-bounded-loops", true, nil, "$ i = 0", "while i < 900000 {", "  $ j = 0", "  while j < 900000 {", "    j = j + 1", "  }", "  i = i + 1", "}", "> i")
-	add("doubling-in-bounded-loop", true, nil, "$ s = \"aaaaaaaa\"", "$ i = 0", "while i < 100 {", "  s = s + s", "  i = i + 1", "}", "> length(s)")
-	add("doubling-in-bounded-loop", true, nil, "$ a = [1, 2, 3, 4]", "$ i = 0", "while i < 100 {", "  a = a + a", "  i = i + 1", "}", "> length(a)")
-	add("doubling-in-bounded-loop", true, nil, "$ a = [1, 2]", "for v in [1, 2, 3, 4, 5, 6, 7, 8, 9, 10, 11, 12, 13, 14, 15, 16, 17, 18, 19, 20, 21, 22, 23, 24, 25, 26, 27, 28, 29, 30, 31, 32, 33, 34, 35, 36, 37, 38, 39, 40] {", "  a = a + a", "}", "> length(a)")
+	add("unbounded-work", true, nil, "$ i = 0", "while i < 900000 {", "  $ j = 0", "  while j < 900000 {", "    j = j + 1", "  }", "  i = i + 1", "}", "> i")
+	add("unbounded-allocation", true, nil, "$ s = \"aaaaaaaa\"", "$ i = 0", "while i < 100 {", "  s = s + s", "  i = i + 1", "}", "> length(s)")
+	add("unbounded-allocation", true, nil, "$ a = [1, 2, 3, 4]", "$ i = 0", "while i < 100 {", "  a = a + a", "  i = i + 1", "}", "> length(a)")
+	add("unbounded-allocation", true, nil, "$ a = [1, 2]", "for v in [1, 2, 3, 4, 5, 6, 7, 8, 9, 10, 11, 12, 13, 14, 15, 16, 17, 18, 19, 20, 21, 22, 23, 24, 25, 26, 27, 28, 29, 30, 31, 32, 33, 34, 35, 36, 37, 38, 39, 40] {", "  a = a + a", "}", "> length(a)")
 	// recursion
-	add("recursion", true, []string{"! r(n: any) {", "  > r(n)", "}"}, "> r(1)")
-	add("recursion", true, []string{"! r(n: any) {", "  > [r(n + 1)]", "}"}, "> r(1)")
-	add("recursion", true, []string{"! p(n: any) {", "  > q(n)", "}", "! q(n: any) {", "  > p(n)", "}"}, "> p(1)")
-	add("recursion", true, []string{"! r(n: any) {", "  > map([n], r)", "}"}, "> r(1)")
-	add("recursion", true, []string{"! r(n: any) {", "  > filter([n, n], r)", "}"}, "> r(1)")
-	add("recursion", true, []string{"! r(a: any, b: any) {", "  > reduce([a, b], r, a)", "}"}, "> r(1, 2)")
-	add("recursion", true, []string{"! r(a: any, b: any) {", "  > sort([a, b, a], r)", "}"}, "> r(2, 1)")
-	add("recursion", true, []string{"! r(n: any) {", "  > n |> r", "}"}, "> r(1)")
-	add("recursion", true, []string{"! r(n: any) {", "  $ f = async {", "    > r(n)", "  }", "  > await f", "}"}, "> r(1)")
-	add("recursion", true, []string{"! r(n: any = r()) {", "  > n", "}"}, "> r()")
-	add("exponential-recursion", true, []string{"! fib(n: int) {", "  if n < 2 {", "    > n", "  }", "  > fib(n - 1) + fib(n - 2)", "}"}, "> fib(90)")
-	add("exponential-recursion", true, []string{"! t(n: int) {", "  if n < 1 {", "    > [1]", "  }", "  > t(n - 1) + t(n - 1)", "}"}, "> length(t(200))")
+	add("unbounded-recursion", true, []string{"! r(n: any) {", "  > r(n)", "}"}, "> r(1)")
+	add("unbounded-recursion", true, []string{"! r(n: any) {", "  > [r(n + 1)]", "}"}, "> r(1)")
+	add("unbounded-recursion", true, []string{"! p(n: any) {", "  > q(n)", "}", "! q(n: any) {", "  > p(n)", "}"}, "> p(1)")
+	add("unbounded-recursion", true, []string{"! r(n: any) {", "  > map([n], r)", "}"}, "> r(1)")
+	add("unbounded-recursion", true, []string{"! r(n: any) {", "  > filter([n, n], r)", "}"}, "> r(1)")
+	add("unbounded-recursion", true, []string{"! r(a: any, b: any) {", "  > reduce([a, b], r, a)", "}"}, "> r(1, 2)")
+	add("unbounded-recursion", true, []string{"! r(a: any, b: any) {", "  > sort([a, b, a], r)", "}"}, "> r(2, 1)")
+	add("unbounded-recursion", true, []string{"! r(n: any) {", "  > n |> r", "}"}, "> r(1)")
+	add("unbounded-recursion", true, []string{"! r(n: any) {", "  $ f = async {", "    > r(n)", "  }", "  > await f", "}"}, "> r(1)")
+	add("unbounded-recursion", true, []string{"! r(n: any = r()) {", "  > n", "}"}, "> r()")
+	add("unbounded-work", true, []string{"! fib(n: int) {", "  if n < 2 {", "    > n", "  }", "  > fib(n - 1) + fib(n - 2)", "}"}, "> fib(90)")
+	add("unbounded-work", true, []string{"! t(n: int) {", "  if n < 1 {", "    > [1]", "  }", "  > t(n - 1) + t(n - 1)", "}"}, "> length(t(200))")
 	// async blocks that never finish
-	add("async-loop-unawaited", false, nil, "$ f = async {", "  while true {", "  }", "}", "> 1")
-	add("async-loop-awaited", true, nil, "$ f = async {", "  while true {", "  }", "}", "> await f")
-	add("async-loop-awaited", true, nil, "$ f = async {", "  $ g = async {", "    while true {", "    }", "  }", "  > await g", "}", "> await f")
-	add("async-many", false, nil, "$ i = 0", "while i < 100000 {", "  $ f = async {", "    > i", "  }", "  i = i + 1", "}", "> i")
+	add("async-never-finishes", false, nil, "$ f = async {", "  while true {", "  }", "}", "> 1")
+	add("async-never-finishes", true, nil, "$ f = async {", "  while true {", "  }", "}", "> await f")
+	add("async-never-finishes", true, nil, "$ f = async {", "  $ g = async {", "    while true {", "    }", "  }", "  > await g", "}", "> await f")
+	add("async-many", false, nil, "$ i = 0", "while i < 5000 {", "  $ f = async {", "    > i", "  }", "  i = i + 1", "}", "> i")
 	return c04ListLayer("loops", cs)
 }
 
 func c04Layers(thorough bool) []c04Layer {
 	return []c04Layer{
-		c04OpsLayer(), c04AccessLayer(), c04PatternLayer(), c04FunctionLayer(), c04MiscLayer(), c04AsyncLayer(),
+		// the expensive layers come first so that a time cap cuts the tail of the largest cheap layer instead
+		c04LoopLayer(thorough), c04CyclicLayer(), c04DeepLayer(), c04AsyncLayer(),
+		c04OpsLayer(), c04AccessLayer(), c04PatternLayer(), c04FunctionLayer(), c04MiscLayer(),
 		c04StmtLayer(thorough), c04MethodLayer(thorough), c04ProviderLayer(thorough), c04RequestLayer(thorough), c04BuiltinLayer(thorough),
-		c04DeepLayer(), c04LoopLayer(),
 	}
 }
 
